@@ -500,7 +500,30 @@ func framingMutation(r *core.Rand, b *c19Base) ([]byte, string) {
 	}
 	for t := r.Range(1, 2); t > 0; t-- {
 		bi := r.Intn(len(meta.DataBlocks))
-		switch r.Intn(10) {
+		switch r.Intn(13) {
+		case 10:
+			// the same block listed twice
+			meta.DataBlocks = append(meta.DataBlocks, meta.DataBlocks[bi])
+			desc = append(desc, fmt.Sprintf("block%d-listed-twice", bi))
+		case 11:
+			// no blocks at all / a null block list
+			if r.Bool() {
+				meta.DataBlocks = nil
+			} else {
+				meta.DataBlocks = meta.DataBlocks[:0]
+			}
+			desc = append(desc, "no-blocks")
+			t = 0
+			nj, _ := json.Marshal(meta)
+			return reframe(b, nj), "framing:" + strings.Join(desc, ",")
+		case 12:
+			// two blocks claim the same row data (with the other's hash and counts or their own)
+			bj := r.Intn(len(meta.DataBlocks))
+			meta.DataBlocks[bj].RowDataOffset, meta.DataBlocks[bj].RowDataSize = meta.DataBlocks[bi].RowDataOffset, meta.DataBlocks[bi].RowDataSize
+			if r.Bool() {
+				meta.DataBlocks[bj].RowDataHash, meta.DataBlocks[bj].UncompressedSize, meta.DataBlocks[bj].Rows = meta.DataBlocks[bi].RowDataHash, meta.DataBlocks[bi].UncompressedSize, meta.DataBlocks[bi].Rows
+			}
+			desc = append(desc, fmt.Sprintf("block%d-shares-rowdata-of-block%d", bj, bi))
 		case 9:
 			// two blocks trade filter sections: every extent stays in bounds and CRC-valid
 			bj := r.Intn(len(meta.DataBlocks))
@@ -538,6 +561,11 @@ func framingMutation(r *core.Rand, b *c19Base) ([]byte, string) {
 		}
 	}
 	nj, _ := json.Marshal(meta)
+	return reframe(b, nj), "framing:" + strings.Join(desc, ",")
+}
+
+// reframe puts a metadata JSON with a matching CRC behind the base file's body.
+func reframe(b *c19Base, nj []byte) []byte {
 	body := b.raw[:b.ft.MetaOffset]
 	var out bytes.Buffer
 	out.Write(body)
@@ -550,7 +578,7 @@ func framingMutation(r *core.Rand, b *c19Base) ([]byte, string) {
 	binary.LittleEndian.PutUint32(u[:], 3)
 	out.Write(u[:])
 	out.WriteString(extfmt.Magic)
-	return out.Bytes(), "framing:" + strings.Join(desc, ",")
+	return out.Bytes()
 }
 
 var _ = stores.ErrInjected
